@@ -24,7 +24,7 @@ Sizes3 == { << <<2>> >>, << <<2, 2, 2>>, <<3, 3, 3>> >>, << <<2, 3, 4>> >>, << <
 Ranges == { [kind |-> "range", min |-> mn, max |-> mn + span, step |-> st, vals |-> <<>>] :
                mn \in (IF Big THEN {0, 5, 10, 50, 100} ELSE {0, 10, 50}),
                span \in (IF Big THEN {0, 30, 50, 90, 100, 300, 500} ELSE {0, 30, 50, 100, 300}),
-               st \in (IF Big THEN {5, 10, 25, 30, 50} ELSE {10, 25, 50}) }
+               st \in (IF Big THEN {5, 10, 25, 30, 50} ELSE {5, 10, 25, 50}) }
 Probs == Ranges
     \cup { [kind |-> "single", min |-> 0, max |-> 0, step |-> 1, vals |-> <<v>>] : v \in {0, 50, 125} }
     \cup { [kind |-> "list", min |-> 0, max |-> 0, step |-> 1, vals |-> vs] :
